@@ -367,3 +367,16 @@ def get_trace(h, cfile, shape, tier, prop_ids):
     d = shape_defs(h, shape, tier); d['NO_WITNESS'] = 1
     r = run_cbmc(cfile, d, h.opts + list(shape.get('_opts', [])), shape.get('_timeout', h.timeout) * 2, h.mem_gb, trace=True)
     return r
+
+
+def native_tool(name, flags=()):
+    """native g++ build of replay/<name>.cpp against /repo's headers (cached per header hash): the REAL code, for replays"""
+    src = os.path.join(VERIF, 'replay', name + '.cpp')
+    exe = os.path.join(CACHE, 'replay', name + '.' + sha(repo_hash(), fread(src), ' '.join(flags)))
+    with klock(exe):
+        if not os.path.exists(exe):
+            os.makedirs(os.path.dirname(exe), exist_ok=True)
+            r = run(['g++', '-std=c++20', '-O0', '-w', '-I' + os.path.join(REPO, 'include')] + list(flags) + [src, '-o', exe + '.tmp', '-ldl', '-lpthread'], timeout=1200)
+            if r.returncode != 0: raise BuildError(name + ' does not build: ' + r.stderr[-1500:])
+            os.replace(exe + '.tmp', exe)
+    return exe
